@@ -382,6 +382,18 @@ def rule_roundtrip(ctx) -> None:
         ("CmdReset", [{}]),
     ]
     roundtrip.check_classes(ctx, "C05.cmd-roundtrip", CMD, table, floor=14)
+    # the container header (block size and certificate offset are re-derived by parse from the hash type and compared with the file)
+    from ..engines import ordereval as _oe
+    H = ctx.enum_model(ctx.cls("spsdk/crypto/hash.py", "EnumHashAlgorithm"))
+
+    def lv(c: ast.Call, ev):
+        if norm(c.func) == "get_hash_length" and len(c.args) == 1:
+            return {"sha256": 32, "sha384": 48, "sha512": 64}.get(ev.ev(c.args[0]).label.lower(), 0)
+        return _oe.NOT_MODELLED
+    roundtrip.check_classes(ctx, "C05.header-roundtrip", IMG, [("SecureBinary31Header", [
+        {"firmware_version": 5, "hash_type": H.SHA256, "description": "hello", "timestamp": 0x1122334455, "is_nxp_container": False, "flags": 0,
+         "__setup1": "obj.block_count = 7; obj.image_total_length = 0x1234"},
+        {"firmware_version": 0x7FFF, "hash_type": H.SHA384, "description": None, "timestamp": 1, "is_nxp_container": True, "flags": 1}])], None, lv, floor=1)
 
 
 def run(ctx) -> None:
